@@ -35,29 +35,8 @@
    op 7  AsyncClientRecvIterator: iter_received_packets(timeout=T) on the asyncio backend, one __anext__ per arrival
          input  L [A 7; tmo T; L [A d (packet after d ticks, 0 = buffered) | A (-1) (connection error) ...]]
          output L [L [A code; A dt] ...]                                                                      *)
-From EN Require Import Lib.Bytes Lib.Sx IO.Retry IO.RetryEnv IO.SendAll IO.SendMsg IO.Budget IO.Payload IO.ClientLocks Gen.ParamsC11.
+From EN Require Import Lib.Bytes Lib.Sx IO.Retry IO.RetryEnv IO.SendAll IO.SendMsg IO.Budget IO.Payload IO.ClientLocks Run.IOCommon Gen.ParamsC11.
 Open Scope Z_scope.
-
-Definition as_tmo (x : sx) : option tmo := as_opt as_Z x.
-Definition of_tmo (t : tmo) : sx := of_opt A t.
-Definition of_wait (w : wait) : sx := L [of_bool (w_write w); of_tmo (w_req w)].
-
-Definition as_selans (x : sx) : option selans :=
-  match x with
-  | L [A r; A e] => match as_bool (A r) with Some b => Some {| sa_ready := b; sa_el := e |} | None => None end
-  | _ => None
-  end.
-
-Definition as_sockans (x : sx) : option sockans :=
-  match x with
-  | L [A k; A n; A c] =>
-      if k =? 0 then (if n <? 0 then None else Some (SSent (Z.to_nat n) c))
-      else if (k =? 1) || (k =? 2) then Some (SBlock true c)
-      else if (k =? 3) || (k =? 4) then Some (SBlock false c)
-      else if k =? 5 then Some (SErr c)
-      else None
-  | _ => None
-  end.
 
 Definition as_recvans (x : sx) : option recvans :=
   match x with
@@ -67,15 +46,6 @@ Definition as_recvans (x : sx) : option recvans :=
       else if k =? 3 then Some (RBlock true c)
       else if k =? 5 then Some (RErr c)
       else None
-  | _ => None
-  end.
-
-(* Some None = no lock layer *)
-Definition as_lock (x : sx) : option (option lockans) :=
-  match x with
-  | A 0 => Some (Some LFree)
-  | A (-1) => Some None
-  | L [A a; A e] => match as_bool (A a) with Some b => Some (Some (LHeld b e)) | None => None end
   | _ => None
   end.
 
@@ -108,10 +78,6 @@ Definition of_rvout (o : rvout) : sx :=
   | RvExc c => L [A c]
   | RvFuel => L [A 9]
   end.
-
-(* locks at the end of a call: send lock free, receive lock free (IO/ClientLocks.v: every lock acquired is released
-   when the call ends), waits on the OTHER lock (none: a receive never touches the send lock and vice versa) *)
-Definition locks_after : sx := L [A 1; A 1; L []].
 
 Definition of_call (r : rvres) (lw : list tmo) : sx :=
   L [of_rvout (rv_out r); L (map of_wait (rv_waits r)); A (rv_dt r); L (map of_tmo lw); locks_after].
@@ -160,10 +126,6 @@ Definition run_dgram_recv (ri T : tmo) (lk : option lockans) (s : list recvans) 
       let o := match rr_out r with ROk p _ => L [A 0; B p] | RTimeout => L [A E_TIMEOUT] | RRaise c => L [A c] | RFuel => L [A 9] end in
       L [o; L (map of_wait (rr_waits r)); A (lk_dt k + rr_dt r); L (map of_tmo (lk_waits k)); locks_after]
   end.
-
-Definition of_csres (r : sres) (lw : list tmo) : sx :=
-  L [A (match sr_out r with SOk => 0 | SExc c => c | SFuel => 9 end); B (sk_wire (sr_sock r));
-     L (map of_wait (sr_waits r)); A (sr_dt r); L (map of_tmo lw); locks_after].
 
 (* datagram send: socket.send(data) accepts the whole datagram or raises *)
 Definition dgram_send (data : bytes) (s : sock) : cbres unit * sock * Z :=
@@ -232,29 +194,7 @@ Definition run (i : sx) : sx :=
                           | RFuel => (9, L [])
                           end in
       L [A code; ret; L (map of_wait (rr_waits r)); A (rr_dt r)]
-  | L (A 9 :: labels :: A kind :: _) =>
-      (* lock discipline: a history of calls on one client, replayed by real threads (IO/ClientLocks.v) *)
-      do labels <- as_list_of (fun x =>
-          match x with
-          | L [A 0; A k; A m; T] =>
-              match as_tmo T with
-              | Some T => Some (Start (Z.to_nat k) (if m =? 0 then MSend else if m =? 1 then MRecv else MQuick) T)
-              | None => None
-              end
-          | L [A 1; A k] => Some (Grant (Z.to_nat k))
-          | L [A 2; A k] => Some (GiveUp (Z.to_nat k))
-          | L [A 3; A k; A ok] => Some (Finish (Z.to_nat k) (negb (ok =? 0)))
-          | _ => None
-          end) labels;
-      let '(sf, en) := run_labels cst0 labels in
-      L [L (map of_bool en);
-         L (map (fun c => L [of_nat (c_id c);
-                             match c_ph c with
-                             | PDone code => L [A 0; A (if kind =? 0 then convert_code code else code)]
-                             | PHold => L [A 1]
-                             | PWait _ => L [A 2]
-                             end]) (cs sf));
-         of_bool (is_none (o_send sf)); of_bool (is_none (o_recv sf))]
+  | L (A 9 :: labels :: A kind :: _) => run_lock_history labels kind
   | L (A 8 :: A N :: A bufsize :: A ncalls :: T :: stream :: _) =>
       (* real sockets: the whole stream is (eventually) there, then EOF; only outcomes (packet digests) are compared *)
       do T <- as_tmo T; do stream <- as_chunk stream;
